@@ -21,13 +21,15 @@ def views(m, queries, order=None):
     put('morgan_hash_set', lambda: sorted(m.morgan_hash_set(min_radius=1, max_radius=3)))
     put('linear_bits', lambda: sorted(m.linear_bit_set(min_radius=1, max_radius=4, length=1024)))
     put('morgan_bits', lambda: sorted(m.morgan_bit_set(min_radius=1, max_radius=3, length=1024)))
-    for k, q in enumerate(queries):
+    for k, q in enumerate(queries[:6]):
         put(f'mapping-list:{k}', lambda q=q: [sorted(mp.items()) for mp in q.get_mapping(m, automorphism_filter=False)][:200])
         put(f'mapping-filtered:{k}', lambda q=q: [sorted(mp.items()) for mp in q.get_mapping(m)][:200])
     put('pack', lambda: list(m.pack(compressed=False)))
     half = set(list(m._atoms)[:max(1, len(m._atoms) // 2)])
     for k, q in enumerate(queries[:3]):
         put(f'mapping-scoped:{k}', lambda q=q: [sorted(mp.items()) for mp in q.get_mapping(m, automorphism_filter=False, searching_scope=half)][:200])
+    for k, q in enumerate(queries[6:]):     # queries with several components, scope over parts of several components of the molecule
+        put(f'mapping-scoped-multi:{k}', lambda q=q: [sorted(mp.items()) for mp in q.get_mapping(m, automorphism_filter=False, searching_scope=half)][:200])
     put('split', lambda: sorted(str(x) for x in m.split()))
     put('eq-copy', lambda: [m == m.copy(), hash(m) == hash(m.copy())])
     if order == 'rev':
@@ -47,7 +49,7 @@ def main():
     from chython import smiles, smarts
     pyxlite.install(sys.argv[2])
     inputs = json.load(open(sys.argv[1]))
-    queries = [smarts(q) for q in ['[C;D3]', 'C=O', 'c1ccccc1', '[N,O;h1]', 'C-;!@C', '[C;r6]~[A]']]
+    queries = [smarts(q) for q in ['[C;D3]', 'C=O', 'c1ccccc1', '[N,O;h1]', 'C-;!@C', '[C;r6]~[A]', 'C.C', 'C.O', 'C.N.O']]
     tag = sys.argv[3]
     for smi in inputs:
         try:
